@@ -620,6 +620,7 @@ class MifareUltralightEV1(NTAG21x):
     def __init__(self, clf, target, product):
         super(MifareUltralightEV1, self).__init__(clf, target)
         self._product = "Mifare Ultralight EV1 ({0})".format(product)
+        self._cfgpage = 16 if product.endswith("11") else 37
 
     def _dump_ul11(self):
         text = ("MOD, RFU, RFU, AUTH0", "ACCESS, VCTID, RFU, RFU",
